@@ -72,6 +72,7 @@ def policy : List (Nat × Discipline) := [
   (L.«observer.hasData», .handoff),
   (L.«auditor.hasData», .handoff),
   (L.«collectedSignal.hasData», .handoff),
+  (L.«collectedSignal.drawEvents», .handoff),
   (L.«collectorState.errors», .handoff),
   (L.«collectorState.badCounts[]», .handoff),
   (L.«collectorState.goodCounts[]», .handoff),
